@@ -132,14 +132,17 @@ def run(ctx):
     else:
         plans = [(1, 1, 0, 140000), (4, 1, 0, 200000), (4, 4, 1, 200000), (16, 1, 0, 300000), (16, 16, 2, 300000),
                  (16, 5, 1, 300000), (4, 2, 0, 140000), (16, 8, 4, 140000)] * 3
-    run_batch(ctx, [conc_script(rng, *p) for p in plans], "T-conc")
+    evs = run_batch(ctx, [conc_script(rng, *p) for p in plans], "T-conc") or []
+    extra = {"concurrent_numbered_packets": sum(e["total"] for e in evs if e["a"] == "end"),
+             "concurrent_runs_logged": sum(1 for e in evs if e["a"] == "run"),
+             "concurrent_goroutines": sorted({p[0] for p in plans})}
     ctx.assumptions += [
         "TwccHeaderExt.tla is the reading of the property: the extension with the negotiated id carries the big-endian residue "
         "of the shared counter, other extensions keep their order, every other header field and the payload are unchanged",
         "the numbers a goroutine observes inside one barrier-separated batch (<= 20000 allocations) unwrap unambiguously",
         "sequential scripts set the unexported uint32 counter to the script's base (wraps at 2^16 and 2^32 without 2^32 writes)",
     ]
-    return vlib.finish(ctx, "model_checking", RULE)
+    return vlib.finish(ctx, "model_checking", RULE, extra_cov=extra)
 
 
 def _w4(ctx):
